@@ -43,14 +43,9 @@ from .c13 import TRAVERSAL_LIMIT_S, build_graph, time_limit
 
 SPLIT_EDGES = ("operand", "shape", "index", "bind", "entry")
 
-# findings of this batch that were handed over with a patch (proposed_fixes/) and
-# are recorded in the batch note instead of failing the check
-HANDED_OVER: set = {
-    # FunctionDefinition._placeholders only refuses a second placeholder object for a
-    # parameter when it is EQUAL to the first; an unequal one (other shape / dtype /
-    # tags) is accepted and one of the two is picked by set order
-    "function-parameter-through-two-placeholders-accepted:unequal",
-}
+# (FunctionDefinition._placeholders refused a second placeholder object for a parameter only when it was EQUAL to the
+# first: found by this batch, repaired in /repo by 9d42804; nothing is exempt any more)
+HANDED_OVER: set = set()
 
 
 # --------------------------------------------------------------------------
